@@ -34,7 +34,10 @@ Sources of each rule (S = TAP 13 specification, P = property sentence, F = fixtu
   counts with their exact value (`to_int`).  Only the *value reported* for a subtest whose number was written with
   more digits than the interpreter's int() converts (sys.get_int_max_str_digits(), 4300 by default) is left open
   (`Interp.loose`): the documents do not say how a harness has to represent such a number.  Such a stream always has
-  a missing number or a plan/count mismatch, so an Error event is demanded like for any other stream.
+  a missing number or a plan/count mismatch at its end, so an Error event is demanded like for any other stream; only
+  when the stream is cut short by `Bail out!` the clause "no Error before the bail-out unless something is wrong
+  before it" is not evaluated (`Interp.big`), because a harness that holds the over-long number as some other large
+  value may see a later 20-digit number on the other side of it.
 """
 from __future__ import annotations
 
@@ -188,16 +191,17 @@ def _classify(text: str) -> Line:
         if is_big(line[j:k]) and line[j] == '0':
             return _unspec('over-long number with leading zeros')
         n = to_int(line[j:k])
+        pbig = is_big(line[j:k])
         tail = line[k:]
         if not tail:
-            return Line('plan', num=n)
+            return Line('plan', num=n, big=pbig)
         t = tail.lstrip(WS)
         if not t.startswith('#'):
             return _unspec('text after plan count')
         word = t[1:].lstrip(WS).split(' ')[0].split('\t')[0]
         if _ascii_upper(word).startswith('SKIP') and n == 0:
             return Line('plan', num=0)
-        return Line('plan', num=n, trailer=True)
+        return Line('plan', num=n, trailer=True, big=pbig)
     # -- bail out ----------------------------------------------------------------
     if line.startswith('Bail out!'):
         return Line('bailout')
@@ -269,7 +273,7 @@ def result_of(ok: bool, directive: T.Optional[str]) -> str:
 
 class Interp:
     __slots__ = ('tests', 'classes', 'tolerated', 'bailout', 'unspecified', 'soft', 'version', 'n_lines',
-                 'has_plan', 'has_yaml', 'has_directive', 'has_version', 'plan', 'loose')
+                 'has_plan', 'has_yaml', 'has_directive', 'has_version', 'plan', 'loose', 'big')
 
     def __init__(self) -> None:
         self.tests: T.List[T.Tuple[int, T.Optional[T.Tuple[str, ...]], str]] = []
@@ -286,6 +290,7 @@ class Interp:
         self.has_version = False
         self.plan: T.Optional[int] = None
         self.loose: T.Set[int] = set()        # indexes into tests whose number derives from an over-long literal (value not compared)
+        self.big = False                      # an over-long literal was read as a plan count or a test number (before any bail-out)
 
     @property
     def named(self) -> T.List[str]:
@@ -387,6 +392,7 @@ def interpret(lines: T.Sequence[str]) -> Interp:
             assert ln.num is not None
             plan_n = ln.num
             plan_late = count > 0
+            R.big = R.big or ln.big
             if ln.trailer:
                 R.tolerated.add(T_PLANDIR)
             if count > plan_n:
@@ -401,6 +407,7 @@ def interpret(lines: T.Sequence[str]) -> Interp:
         last_loose = ln.big if ln.num is not None else last_loose     # counting on from an over-long number stays loose
         if last_loose:
             R.loose.add(len(R.tests))
+            R.big = True
         if ln.num == 0:
             R.soft.append('test number 0')
         if ln.directive:
